@@ -211,6 +211,18 @@ def run(F, rep, tier):
                 if c in ("!self.html",):
                     text_path_nodes(n[2], out)
                     return
+            if n[0] == "match" and is_node(n[1]) and n[1][0] == "tuple":
+                # match (x, self.html) { (.., true) => html, (.., false) => text }
+                pos = [i for i, e_ in enumerate(n[1][1]) if render(e_).replace(" ", "") == "self.html"]
+                if pos:
+                    out.append(n)
+                    text_path_nodes(n[1], out)
+                    for a in n[2]:
+                        pt = a[0]
+                        if pt[0] == "ptuple" and pos[0] < len(pt[1]) and render_pat(pt[1][pos[0]]) == "true":
+                            continue
+                        text_path_nodes(a[2], out)
+                    return
             out.append(n)
         for ch in n:
             if isinstance(ch, list):
@@ -237,6 +249,36 @@ def run(F, rep, tier):
             rep.bad("C08-R6", "%s:%s" % (it["name"], h), "Formatter::%s uses `%s` on its text path: elements of the node's lists can be left out of the formatted text, which then re-parses to a different tree" % (it["name"], h),
                     "src/syntax/src/formatter.rs (expanded line %d)" % it["line"])
     rep.floor("C08-R6", "emitters scanned for element dropping", n6, 100)
+    # ---- R11: no HTML on the text path
+    rep.rule("C08-R11", "text-mode emitters write no HTML: no literal on the text path of an emitter contains an HTML entity or tag (`&lt;`, `&gt;`, `<span`, `<div`, `</`): such text is not Mech source")
+    from lib.emit import parse_format
+    HTMLISH = re.compile(r"&lt;|&gt;|&amp;|&quot;|</?(span|div|table|tr|td|th|a|p|li|ul|ol|img|h[1-6]|code|pre|em|strong|section|thead|tbody)\b")
+    n11 = 0
+    for it in fm:
+        if it["name"] not in reach or "html" in it["name"]:
+            continue
+        ptys = [re.sub(r"^&(mut )?", "", p_[1]).strip() for p_ in it["sig"]["inputs"] if is_node(p_[0]) and p_[0][0] == "pident"]
+        if not ptys or ptys[0] in ("str", "String", "u64", "usize", "bool"):
+            continue        # back-matter builders without a node argument (works cited, footnotes, headings) belong to the HTML document assembly
+        nodes = []
+        text_path_nodes(it["body"], nodes)
+        n11 += 1
+        hits = []
+        for n_ in nodes:
+            txt = None
+            if n_[0] == "str":
+                txt = n_[1]
+            elif n_[0] == "macro" and last_seg(n_[1]) in ("format_args", "format"):
+                txt = parse_format(n_[3] if len(n_) > 3 else n_[2])[0]
+            if txt and HTMLISH.search(txt):
+                hits.append(HTMLISH.search(txt).group(0))
+        if not hits:
+            rep.ok("C08-R11", "%s:no-html-on-text-path" % it["name"])
+            continue
+        rep.bad("C08-R11", "%s:%s" % (it["name"], ",".join(sorted(set(hits)))[:40]),
+                "Formatter::%s writes HTML (%s) on its text path (outside `if self.html`): the formatted text contains markup instead of Mech syntax and does not re-parse" % (it["name"], sorted(set(hits))),
+                "src/syntax/src/formatter.rs (expanded line %d)" % it["line"])
+    rep.floor("C08-R11", "emitters scanned for HTML on the text path", n11, 100)
     from rules import c08_grammar
     c08_grammar.run(F, rep, fm, reach)
     # ---- R10: based-literal prefixes: the emitter of a RealNumber variant writes a prefix its parser leaf accepts
